@@ -157,7 +157,12 @@ def check_text(data: dict, lab: Labels) -> None:
                     toks[i] = alphabet[j % len(alphabet)]
             lab.tag("mut-" + op)
         text = P.join_tokens(toks, 0)
-        spaced = P.join_tokens(toks, data.get("ws", 0)) if not mut else None
+        # the inserted whitespace is any of the characters the grammars ignore, also at the very end
+        ws_ = data.get("ws", 0)
+        blank = BLANKS[ws_ % len(BLANKS)]
+        spaced = (P.join_tokens(toks, ws_, blank) + (blank if ws_ % 5 == 4 else "")) if not mut else None
+        if spaced is not None and spaced != text:
+            lab.tag("blank-" + {" ": "space", "\t": "tab", "\n": "lf", "\r\n": "crlf", "\f": "ff", "  ": "two"}[blank])
     else:
         text = data["text"]
         toks = text.split()
@@ -293,6 +298,8 @@ def check_text(data: dict, lab: Labels) -> None:
     lab.nontrivial = len(toks) >= 3 and (ok or bool(data.get("mut")))
     lab.sample_class = f"{kind}-{lang}-{'accepted' if ok else 'rejected'}"
 
+
+BLANKS = [" ", "\t", " ", "\n", "\r\n", "\f", "  "]
 
 # ------------------------------------------------------------------------------ generators
 
